@@ -11,6 +11,7 @@ SetToSeq(S) == Ordered(S)
 Emit == Done => PrintT(ToJson([req |-> [req EXCEPT !.fam = [name |-> req.fam.name, dim |-> req.fam.dim,
                                                              constraints |-> SetToSeq(req.fam.constraints),
                                                              periodic |-> SetToSeq(req.fam.periodic)]],
+                               env |-> env, iters |-> iters, xlo |-> xlo, xhi |-> xhi,
                                cls |-> cls, width |-> width, free |-> SetToSeq(free), lower |-> lower, upper |-> upper,
                                nextra |-> nextra]))
 =============================================================================
